@@ -640,6 +640,10 @@ func (ms *MidState) ApplyV2Transaction(txn types.V2Transaction) {
 		ms.resolveV2FileContractElement(fcr.Parent.Share(), fcr.Resolution, txid)
 
 		fc := fcr.Parent.V2FileContract
+		// a contract revised earlier in this block pays out its latest revision
+		if i, ok := ms.elements[fcr.Parent.ID]; ok && ms.v2fces[i].Revision != nil {
+			fc = *ms.v2fces[i].Revision
+		}
 		var renter, host types.SiacoinOutput
 		switch r := fcr.Resolution.(type) {
 		case *types.V2FileContractRenewal:
